@@ -1,4 +1,5 @@
 import PSO.Proofs.FramingE2E
+import PSO.Proofs.FramingDuplex
 import PSO.Proofs.FramingExample
 
 /-!
@@ -151,6 +152,59 @@ example : (run Ex.cfg (Conn.init true 0) (Ex.readsUndec.map fun e => readEv e.1 
     (by decide) ⟨by decide, by decide, trivial⟩ (frame [7]) [1, 0, 0, 0, 1]
     (Or.inr ⟨[7], rfl, by decide, rfl⟩) rfl
   exact ⟨h.1, h.2.2.1⟩
+
+/-! ## reads interleaved with sends and WRITE events (full duplex) -/
+
+/-- **reader_exact_interleaved.**  As `reader_exact`, but the READ events are interleaved in any way with `send`
+calls and with poller events carrying the WRITE bit (alone or together with READ), every `socket.send` answer being
+a short write, a zero write or EAGAIN (`IoEv.Ok`), no time-out (`gapsOkIo`): the reader still delivers exactly
+`ms`, stays CONNECTED and keeps exactly the incomplete tail.  (`writer_prefix` holds of the same run.) -/
+theorem reader_exact_interleaved (cfg : Cfg Msg) (hN : NoNone cfg) (ms : List Msg) (hok : ∀ m ∈ ms, MsgOk cfg m)
+    (c : Conn Msg) (hc : c.state = .connected) (hidle : parseOne cfg.dec c.rbuf = .wait)
+    (evs : List (IoEv Msg)) (hev : ∀ e ∈ evs, e.Ok) (hg : gapsOkIo cfg.timeout c.lastRead evs)
+    (tail : Bytes) (htail : parseOne cfg.dec tail = .wait)
+    (hcat : c.rbuf ++ ((ioReads evs).map (·.2)).flatten.flatten = frames cfg ms ++ tail) :
+    let c' := run cfg c (evs.map IoEv.toEv)
+    c'.delivered = c.delivered ++ ms ∧ c'.state = .connected ∧ c'.rbuf = tail ∧ c'.nDisc = c.nDisc := by
+  intro c'
+  have hsim := run_io_sim cfg evs c c (Sim.refl c) (Or.inl hc) hev hg
+  obtain ⟨h1, h2, h3, h4, _⟩ := reader_exact cfg hN ms hok c hc hidle (ioReads evs) (ioReads_ne evs hev)
+    (gapsOkIo_reads cfg.timeout evs c.lastRead hg) tail htail hcat
+  have hst : c'.state = .connected := hsim.state.trans h2
+  exact ⟨hsim.delivered.trans h1, hst, (hsim.rbuf (by rw [hst]; decide)).trans h3, hsim.nDisc.trans h4⟩
+
+/-- non-vacuity: `Ex.ioEvs` (sends with short write / EAGAIN, READ+WRITE in one event, a zero write) -/
+example : (run Ex.cfg (Conn.init true 0) (Ex.ioEvs.map IoEv.toEv)).delivered = [] ++ [true, false] ∧
+    (run Ex.cfg (Conn.init true 0) (Ex.ioEvs.map IoEv.toEv)).rbuf = [1, 0] := by
+  have h := reader_exact_interleaved Ex.cfg Ex.noNone [true, false] (fun m _ => Ex.msgOk m) (Conn.init true 0) rfl rfl
+    Ex.ioEvs Ex.ioOk ⟨by decide, by decide, by decide, by decide, by decide, trivial⟩ [1, 0] rfl rfl
+  exact ⟨h.1, h.2.2.1⟩
+
+/-- **invalid_disconnects_interleaved.**  As `invalid_disconnects`, with the READ events interleaved with benign
+sends / WRITE events: exactly `ms` delivered, DISCONNECTED, one `onDisconnected`. -/
+theorem invalid_disconnects_interleaved (cfg : Cfg Msg) (hN : NoNone cfg) (ms : List Msg)
+    (hok : ∀ m ∈ ms, MsgOk cfg m)
+    (c : Conn Msg) (hc : c.state = .connected) (hidle : parseOne cfg.dec c.rbuf = .wait)
+    (evs : List (IoEv Msg)) (hev : ∀ e ∈ evs, e.Ok) (hg : gapsOkIo cfg.timeout c.lastRead evs)
+    (bad rest : Bytes)
+    (hbad : (4 ≤ bad.length ∧ leInt32 bad < 0) ∨
+            (∃ p, bad = frame p ∧ p.length < 2147483648 ∧ cfg.dec p = none))
+    (hcat : c.rbuf ++ ((ioReads evs).map (·.2)).flatten.flatten = frames cfg ms ++ (bad ++ rest)) :
+    let c' := run cfg c (evs.map IoEv.toEv)
+    c'.delivered = c.delivered ++ ms ∧ c'.state = .disconnected ∧ c'.nDisc = c.nDisc + 1 := by
+  intro c'
+  have hsim := run_io_sim cfg evs c c (Sim.refl c) (Or.inl hc) hev hg
+  obtain ⟨h1, h2, h3, _⟩ := invalid_disconnects cfg hN ms hok c hc hidle (ioReads evs) (ioReads_ne evs hev)
+    (gapsOkIo_reads cfg.timeout evs c.lastRead hg) bad rest hbad hcat
+  exact ⟨hsim.delivered.trans h1, hsim.state.trans h2, hsim.nDisc.trans h3⟩
+
+/-- non-vacuity -/
+example : (run Ex.cfg (Conn.init true 0) (Ex.ioEvsNeg.map IoEv.toEv)).delivered = [] ++ [true] ∧
+    (run Ex.cfg (Conn.init true 0) (Ex.ioEvsNeg.map IoEv.toEv)).state = .disconnected := by
+  have h := invalid_disconnects_interleaved Ex.cfg Ex.noNone [true] (fun m _ => Ex.msgOk m) (Conn.init true 0) rfl rfl
+    Ex.ioEvsNeg Ex.ioOkNeg ⟨by decide, by decide, by decide, by decide, trivial⟩
+    [0xFB, 0xFF, 0xFF, 0xFF] [9, 9] (Or.inl ⟨by decide, by decide⟩) rfl
+  exact ⟨h.1, h.2.1⟩
 
 /-! ## writer and reader together -/
 
